@@ -17,6 +17,23 @@ def known_findings():
         return {"open": [], "fixed": []}
 
 
+class PreconditionViolation(Exception):
+    """a generated header of an accepted verification schema does not compile: decided by the compiler while lowering (not a solver verdict)"""
+    def __init__(self, what, d):
+        Exception.__init__(self, what); self.what, self.dir = what, d
+
+
+def generated_header_error(u, incs):
+    """first compiler error located inside sbeppc's output directory (None if the error is in the wrapper or in sbepp.hpp)"""
+    for ln in (u.get("stderr") or "").split("\n"):
+        m = re.match(r"(\S+?):(\d+):(\d+): (fatal )?error: (.*)", ln)
+        if not m: continue
+        f = os.path.realpath(m.group(1))
+        if any(f.startswith(os.path.realpath(i) + os.sep) for i in incs): return ln
+        return None   # the first error decides: an error in the wrapper / library header is not attributed to the generator
+    return None
+
+
 class Ctx:
     def __init__(self, pid, tier, seed):
         self.pid, self.tier, self.seed = pid, tier, seed
@@ -37,6 +54,14 @@ class Ctx:
     def lower(self, name, cpp, **kw):
         u = self.slot.lower(name, cpp, **kw)
         if "error" in u:
+            gh = generated_header_error(u, kw.get("incs") or ())
+            if gh:
+                d = os.path.join(VERIF, "replays", self.pid, "generated_header_does_not_compile_" + re.sub(r"\W", "_", name)); os.makedirs(d, exist_ok=True)
+                shutil.copy(u["cpp"], os.path.join(d, "w.cpp"))
+                open(os.path.join(d, "compiler_output.txt"), "w").write(u.get("stderr", ""))
+                open(os.path.join(d, "replay.sh"), "w").write("#!/bin/sh\n# re-runs the front end on the wrapper that includes the generated header; falls back to the recorded output\n"
+                                                              "clang++-14 %s -fsyntax-only %s/w.cpp 2>&1 | head -40; cat %s/compiler_output.txt | head -40; exit 1\n" % (" ".join(u.get("flags", [])), d, d))
+                raise PreconditionViolation("sbeppc accepted the verification schema but its generated header does not compile (%s): %s" % (name, gh[:300]), d)
             raise P.EngineError("unit %s does not lower: %s\n%s" % (name, u["error"], u.get("stderr", "")))
         self.units.append(u)
         return u
@@ -271,6 +296,15 @@ def run_property(mod, pid, tier, seed, level, explanation=None):
         if violations or ctx.pre_violations: return 1
         if errors: return 2
         return 0
+    except PreconditionViolation as e:
+        print("VIOLATION property=%s replay=%s" % (pid, e.dir)); print("  " + e.what)
+        ctx.pre_violations.append((e.what, e.dir))
+        ctx.observations.append({"what": e.what, "decided_by": "clang front end while lowering a generated header (pipeline precondition, not a solver verdict)"})
+        try:
+            write_evidence(ctx, level, [], [], [None], [], [], getattr(ctx, "extra", None), explanation)
+        except Exception:
+            pass
+        return 1
     except P.EngineError as e:
         print("ERROR property=%s engine failure: %s" % (pid, e))
         return 2
